@@ -1196,7 +1196,28 @@ func (p *c08) Run(c *verifsim.Chooser, st *Stats, render bool) *Outcome {
 		n := 1 + c.Intn(6)
 		var hist []string
 		curText := sc.Text
+		// API the pinned tree does not have (found by reflection): setters that
+		// take a duration are given one, methods without arguments are called
+		for _, m := range apiDurationSetters {
+			d := []time.Duration{50 * time.Millisecond, time.Second, 0}[c.Intn(3)]
+			if _, pan := apiCall(ev.e, m, d); pan != "" {
+				o.violate("C08/escaped-panic", m, "%s(%v) panicked into the caller: %s", m, d, pan)
+				return o
+			}
+			hist = append(hist, fmt.Sprintf("%s(%v)", m, d))
+			st.probe("discovered-api:" + m)
+		}
 		for i := 0; i < n; i++ {
+			for _, m := range apiNullary {
+				if c.Intn(4) == 1 {
+					if _, pan := apiCall(ev.e, m); pan != "" {
+						o.violate("C08/escaped-panic", m, "%s() panicked into the caller: %s", m, pan)
+						return o
+					}
+					hist = append(hist, m+"()")
+					st.probe("discovered-api:" + m)
+				}
+			}
 			if c.Intn(6) == 1 {
 				// the host's user edits the filter: new text into the exported
 				// Script field of the same evaluator, Prepare again
